@@ -250,6 +250,8 @@ def run(chk):
     replay_model_scenarios(chk, recs, 90 if quick else 2500)
     random_scenarios(chk, 60 if quick else 2500)
     painted_check.run(chk)     # the SVG-tree -> Paint-tree front end, exhaustively over small document trees
+    painted_check.end_to_end(chk, CC.FLAVOURS, lambda c, font, cfg, srcs, ctx, replay:
+                             CC.check_font_pictures(c, font, cfg, srcs, None, 0.1, ctx, replay))
     nested_groups(chk)
     coincidence_scenarios(chk, 60 if quick else 2000)
     transform_fill_grid(chk)
